@@ -4,6 +4,7 @@ import (
 	"fmt"
 	"testing"
 
+	"github.com/RoaringBitmap/roaring/v2"
 	segment "github.com/blevesearch/scorch_segment_api/v2"
 	"pgregory.net/rapid"
 
@@ -156,6 +157,33 @@ func checkFlagVariants(prop string, seg segment.Segment, want *spec.Obs) *Violat
 					}
 					if i != len(hits) {
 						v = violation(prop, "flags/count-mismatch", "field %q term %q flags %v: %d hits, model %d", f, term, flags, i, len(hits))
+						return nil
+					}
+				}
+				// the same hits must come back when earlier ones are skipped over:
+				// jump straight to the last hit, and read the second hit with the first excluded
+				if len(hits) >= 2 {
+					itr := pl.Iterator(true, true, true, nil)
+					last := hits[len(hits)-1]
+					p, err := itr.Advance(last.Doc)
+					if err != nil {
+						return err
+					}
+					if d := compareHit(p, &last, [3]bool{true, true, true}); d != "" {
+						v = violation(prop, "skip/advance-to-last", "field %q term %q: Advance(%d) on a fresh iterator: %s", f, term, last.Doc, d)
+						return nil
+					}
+					ex := roaring.BitmapOf(uint32(hits[0].Doc))
+					pl2, err := d.PostingsList([]byte(term), ex, nil)
+					if err != nil {
+						return err
+					}
+					p2, err := pl2.Iterator(true, true, true, nil).Next()
+					if err != nil {
+						return err
+					}
+					if d := compareHit(p2, &hits[1], [3]bool{true, true, true}); d != "" {
+						v = violation(prop, "skip/first-excluded", "field %q term %q: first hit with doc %d excluded: %s", f, term, hits[0].Doc, d)
 						return nil
 					}
 				}
